@@ -645,14 +645,24 @@ func (ex *Exec) sizeArg(t *Term, signed bool, elemSize int64, msg string) (int, 
 		lim = ex.allocLimit / int(elemSize)
 		what = fmt.Sprintf("%d bytes (%d elements of %d bytes)", ex.allocLimit, lim, elemSize)
 	}
+	if ex.allocLimit > 0 {
+		// cumulative: what this path has allocated with make since AllocLimit, plus this one
+		lim = (ex.allocLimit - ex.allocTotal) / int(elemSize)
+		if lim < 0 {
+			lim = 0
+		}
+		what = fmt.Sprintf("%d bytes in total (%d already allocated, element size %d)", ex.allocLimit, ex.allocTotal, elemSize)
+	}
 	big := ex.ts.Cmp(OpSlt, ex.ts.Const(64, uint64(lim)), t)
 	if !big.IsFalse() {
 		if ex.branch(big) {
-			ex.reportSite("alloc", "oversize", "a single allocation can exceed "+what)
+			ex.reportSite("alloc", "oversize", "allocations can exceed "+what)
 			ex.endPath("alloc-limit")
 		}
 	}
-	return int(ex.concretize(t, "make size")), nil
+	n := int(ex.concretize(t, "make size"))
+	ex.allocTotal += n * int(elemSize)
+	return n, nil
 }
 
 func (ex *Exec) noteWrite(o *Obj) {
